@@ -400,7 +400,7 @@ pub fn exercise_groups(ex: &mut Explorer, label: &dyn Fn() -> String, bytes: &[u
     }
 
     // --- subsetting plan + subset
-    for (pn, keep) in [("first", 0u32..=num_glyphs.min(40)), ("tail", num_glyphs.saturating_sub(10)..=num_glyphs)].into_iter().filter(|_| grp.klippa) {
+    for (pn, keep) in [("first", 0u32..=num_glyphs.min(40)), ("tail", num_glyphs.saturating_sub(10)..=num_glyphs), ("all", 0u32..=num_glyphs.min(3000))].into_iter().filter(|_| grp.klippa) {
         let name = format!("klippa plan+subset keep={pn}");
         ex.op(label, &name, &mut || {
             let mut gs: IntSet<GlyphId> = IntSet::empty();
@@ -410,6 +410,16 @@ pub fn exercise_groups(ex: &mut Explorer, label: &dyn Fn() -> String, bytes: &[u
             let mut unicodes: IntSet<u32> = IntSet::empty();
             for c in [0x20u32, 0x41, 0x61, 0x3A9, 0xFFFF, 0x1F600] {
                 unicodes.insert(c);
+            }
+            // plus code points the font itself maps, incl. variation sequences (selector and base), so
+            // that the cmap 4 / 12 / 14 writers and the closures run on real content
+            let cm = font.charmap();
+            for (c, _) in cm.mappings().take(48) {
+                unicodes.insert(c);
+            }
+            for (c, sel, _) in cm.variant_mappings().take(24) {
+                unicodes.insert(c);
+                unicodes.insert(sel);
             }
             let empty_tags: IntSet<Tag> = IntSet::empty();
             let mut all_tags: IntSet<Tag> = IntSet::empty();
@@ -596,7 +606,69 @@ fn corrupt(base: &[u8], rng: &mut Rng) -> Option<(String, Vec<u8>)> {
     Some((desc, b))
 }
 
+/// debugging / replay aid: `C20_PROBE="<corpus font name>|<abs byte offset>|<width>|<value>"` runs every
+/// consumer on that single-field mutant and prints the traps (see the `mut=field[..@off:uN=val]` replays)
+fn probe() {
+    let Ok(spec) = std::env::var("C20_PROBE") else { return };
+    let parts: Vec<&str> = spec.split('|').collect();
+    if parts[0] == "list" {
+        // `list|<substring>`: located fields of every corpus font whose path contains the substring
+        for (n, b) in corpus() {
+            let (fields, _, _) = crate::fields::locate(&b);
+            for f in fields.iter().filter(|f| f.path.contains(parts[1])) {
+                let mut v = 0u64;
+                for k in 0..f.width {
+                    v = (v << 8) | b[f.pos + k] as u64;
+                }
+                eprintln!("{n} {} @{} u{} = {v}", f.path, f.pos, 8 * f.width);
+            }
+        }
+        std::process::exit(0);
+    }
+    let parse = |x: &str| if let Some(h) = x.strip_prefix("0x") { u64::from_str_radix(h, 16).unwrap() } else { x.parse::<u64>().unwrap() };
+    let name = parts[0];
+    let (pos, width, val) = (parse(parts[1]) as usize, parse(parts[2]) as usize, parse(parts[3]));
+    let fonts = corpus();
+    let base = fonts.iter().find(|(n, _)| n == name.trim_end_matches("+cmap")).map(|(_, b)| b.clone()).or_else(|| std::fs::read(name).ok()).expect("font");
+    let mut b = if name.ends_with("+cmap") { with_cmap(&base).unwrap_or(base) } else { base };
+    let mut v = val;
+    for k in (0..width).rev() {
+        b[pos + k] = (v & 0xFF) as u8;
+        v >>= 8;
+    }
+    if let Ok(font) = FontRef::new(&b) {
+        let n = font.maxp().map(|m| m.num_glyphs() as u32).unwrap_or(0);
+        let mut gs: IntSet<GlyphId> = IntSet::empty();
+        for g in 0..=n {
+            gs.insert(GlyphId::new(g));
+        }
+        let unicodes: IntSet<u32> = IntSet::empty();
+        let empty_tags: IntSet<Tag> = IntSet::empty();
+        let mut all_tags: IntSet<Tag> = IntSet::empty();
+        all_tags.invert();
+        let name_ids = IntSet::empty();
+        let langs: IntSet<u16> = IntSet::empty();
+        let r = run_catch(|| {
+            let plan = klippa::Plan::new(&gs, &unicodes, &font, klippa::SubsetFlags::default(), &empty_tags, &all_tags, &all_tags, &name_ids, &langs);
+            klippa::subset_font(&font, &plan).map(|v| v.len()).map_err(|e| format!("{e:?}"))
+        });
+        eprintln!("probe: klippa keep=all -> {r:?}");
+    }
+    let mut ex = Explorer::default();
+    let label = || format!("probe {spec}");
+    exercise(&mut ex, &label, &b, false);
+    eprintln!("probe: {} ops, {} traps, {} other panics", ex.ops, ex.traps.len(), ex.other_panics);
+    for t in &ex.traps {
+        eprintln!("  TRAP {} | {} | {}", t.0, t.1, t.2);
+    }
+    for (k, v) in &ex.counts {
+        eprintln!("  {k} {v}");
+    }
+    std::process::exit(0);
+}
+
 pub fn run(cfg: &Config, s: &mut Session) {
+    probe();
     let t0 = std::time::Instant::now();
     let mut rng = Rng::new(cfg.seed ^ 0xE20);
     let fonts = corpus();
